@@ -13,6 +13,7 @@ AgreeRes(s, ns, op, res) ==
   /\ "panic" \notin DOMAIN res
   /\ (op.op = "regcb") => (res.regerr = IF RegOk(op) THEN 0 ELSE 1)
   /\ (op.op = "setprop") => (res.err = 0)
+  /\ (op.op = "measure") => AgreeMetrics(op.parts, res.metrics)
   /\ ("cblog" \in DOMAIN res) => AgreeCbLog(s, SlotsOf(s, op), res.cblog)
 
 \* re-setting keys must not grow an owner's stored state: the chain of a cell is
